@@ -52,8 +52,10 @@ def sha(path):
         return hashlib.sha256(f.read()).hexdigest()
 
 
-def expected_tree(out_src, in_src, pairs, wrap, evalmode, eval_values):
-    """Reference implementation of the property's statement."""
+def expected_tree(out_src, in_src, pairs, wrap, evalmode, eval_values, carry_value=False):
+    """Reference implementation of the property's statement.
+    carry_value: an annotated assignment WITH a value that replaces a positional argument of the same name also hands
+    its value over as that argument's default (when the argument has one) -- "replaced by the one addressed in the input"."""
     out_tree = ast.parse(out_src)
     in_tree = ast.parse(in_src)
     for ipath, opath in pairs:
@@ -74,6 +76,11 @@ def expected_tree(out_src, in_src, pairs, wrap, evalmode, eval_values):
                 ann = ast.parse(wrap.format(output_param=ast.unparse(ann))).body[0].value
         if okind in ("arg", "kwonlyarg"):
             lst = oparent.args.args if okind == "arg" else oparent.args.kwonlyargs
+            if (carry_value and not evalmode and okind == "arg" and isinstance(inode, ast.AnnAssign) and inode.value is not None
+                    and new_name == onode.arg):
+                k = lst.index(onode) - (len(lst) - len(oparent.args.defaults))
+                if k >= 0:
+                    oparent.args.defaults[k] = copy.deepcopy(inode.value)
             lst[lst.index(onode)] = ast.arg(arg=new_name, annotation=ann)
         else:
             inode2 = copy.deepcopy(resolve(ipath, in_tree)[0]) if not evalmode else ast.AnnAssign(
@@ -149,6 +156,28 @@ def one(ctx, i, tmpdir):
         feats.append((fi, fo))
     if not pairs:
         return
+    same_name_forced = False
+    if not evalmode and rng.random() < 0.35:
+        # a setting in the input that carries the NAME of the output argument it replaces (config attribute -> parameter)
+        for k_, (ip_, op_) in enumerate(pairs):
+            ol_ = next((l for l in mout["locations"] if l["path"] == op_), None)
+            top_in = {getattr(getattr(n, "target", None), "id", None) for n in in_tree.body} | \
+                     {t.id for n in in_tree.body if isinstance(n, ast.Assign) for t in n.targets if isinstance(t, ast.Name)} | \
+                     {getattr(n, "name", None) for n in in_tree.body}
+            if ol_ is None or ol_["kind"] not in ("arg", "method_arg") or op_[-1] in top_in:
+                continue
+            ls_ = in_src.split("\n")
+            at_ = 0
+            if in_tree.body and isinstance(in_tree.body[0], ast.Expr) and isinstance(getattr(in_tree.body[0], "value", None), ast.Constant) \
+                    and isinstance(in_tree.body[0].value.value, str):
+                at_ = in_tree.body[0].end_lineno
+            ls_.insert(at_, "{}: {} = {}".format(op_[-1], rng.choice(["int", "str", "Optional[int]"]), rng.choice(["41", "'zq_carried'", "-7"])))
+            in_src = "\n".join(ls_)
+            in_tree = ast.parse(in_src)
+            pairs[k_] = ([op_[-1]], op_)
+            feats[k_] = (loc_features(in_tree, {"path": [op_[-1]], "kind": "annassign"}), feats[k_][1])
+            same_name_forced = True
+            break
     bad_input = (i % 11 == 8) and not evalmode
     if bad_address:
         if (i // 11) % 2 and len(pairs[-1][1]) >= 2:
@@ -198,6 +227,7 @@ def one(ctx, i, tmpdir):
         "out_has_kwonly": any(f[1]["target_kind"] in ("kwarg", "method_kwarg") for f in feats),
         "later_output_is_earlier_input_address": any(pairs[k][1] in [q[0] for q in pairs[:k]] for k in range(len(pairs))),
         "address_aliased_earlier": any(f.get("alias_before_target") or f.get("same_name_assigned_in_block_before") for pair in feats for f in pair),
+        "input_setting_named_like_output_argument": same_name_forced,
         "out_name_assigned_again_in_block": any(l.get("redeclared_in_block") and l["path"] in [p[1] for p in pairs] for l in mout["locations"]),
     }
     replay = {"case": i, "seed": ctx.seed, "tier": ctx.tier, "in_src": in_src, "out_src": out_src, "pairs": pairs, "wrap": wrap, "eval": evalmode}
@@ -268,10 +298,13 @@ def one(ctx, i, tmpdir):
         ctx.report(dict(base, field="output_file", tag="does_not_parse", msg=str(e)[:100], expected="", observed=""), replay)
         return
     ctx.event("outputs_compared")
-    if ast.dump(_norm_docstrings(got)) != ast.dump(_norm_docstrings(expect)):
+    expect_carried = expected_tree(out_src, in_src, pairs, wrap, evalmode, eval_values, carry_value=True)
+    ctx.event("outputs_compared_with_value_carrying_reference" if ast.dump(expect_carried) != ast.dump(expect) else "outputs_compared_single_reference")
+    if ast.dump(_norm_docstrings(got)) not in (ast.dump(_norm_docstrings(expect)), ast.dump(_norm_docstrings(expect_carried))):
         # which way did it go wrong?
         unchanged = ast.dump(_norm_docstrings(got)) == ast.dump(_norm_docstrings(ast.parse(out_src)))
         ctx.report(dict(base, field="output_tree", tag="nothing_applied" if unchanged else "differs_from_reference",
+                        value_carrying_case=ast.dump(expect_carried) != ast.dump(expect),
                         expected=ast.unparse(expect)[:300], observed=ast.unparse(got)[:300]), replay)
 
 
